@@ -45,6 +45,10 @@ def jobs(tier, rng):
     for acts in ([0, 2, 1], [1, 0, 0], [0, 0, 3], [2, 2, 0]):
         for extra in (dict(scf_backward=1), dict(scf_backward=2)):      # (the analytical-gradient path refuses ground / excited mixes)
             out.append(dict(mols=["h2co", "h2co", "h2co"], path="scf_exc", params=dict(scf_converger=[1], scf_eps=1e-8, excited_states={"n_states": 3, "method": "cis"}, active_state=acts, **extra)))
+    # forces of every state requested
+    for mols in (["h2co"], ["h2co", "h2co"]):
+        for act in (0, 1, 2):
+            out.append(dict(mols=mols, path="scf_exc", allforces=True, params=dict(scf_converger=[1], scf_eps=1e-9, excited_states={"n_states": 2, "method": "cis"}, active_state=act, do_all_forces=True, analytical_gradient=[True])))
     # all rows excited, on different states: the analytical-gradient path
     for acts in ([1, 2, 3], [2, 1, 1], [3, 3, 1]):
         for meth in ("cis", "rpa"):
@@ -52,7 +56,7 @@ def jobs(tier, rng):
     for mols in (["h2o"], ["ch4", "h2o"], ["nh3"]):
         out.append(dict(mols=mols, path="xl", params=dict(scf_converger=[1], scf_eps=1e-9)))
     if tier == "quick":
-        must = [j for j in out if j.get("second") == "rotate" or j.get("warm") or isinstance(j["params"].get("active_state"), list)] + [j for j in out if j["path"] == "scf_exc" and j["params"]["active_state"] == 3 and j["mols"] == ["h2co"]]
+        must = [j for j in out if j.get("second") == "rotate" or j.get("warm") or j.get("allforces") or isinstance(j["params"].get("active_state"), list)] + [j for j in out if j["path"] == "scf_exc" and j["params"]["active_state"] == 3 and j["mols"] == ["h2co"]]
         out = must + rng.sample([j for j in out if j not in must], 36)
     for n, j in enumerate(out):
         j["id"] = "p%04d" % n
